@@ -25,4 +25,24 @@ theorem classesSummary_eq (short : Bool) (street n : Nat) :
     classesSummary short street n = (classesPrefix short street n).foldl ckObs (0, 0) :=
   unfoldFold_eq _ _ _ _ _
 
+/-- one pocket's segment of the class list: the canonical boards of `pocket`, in iteration order
+(`HandIterator::from((n, pocket)).filter(is_canonical)`) -/
+def pocketClasses (short : Bool) (street pocket : Nat) : List (Nat × Nat) :=
+  ((handsOfHand short (nObserved street) pocket).filter (fun b => isCanon short pocket b)).map
+    (fun b => (pocket, b))
+
+/-- the first `n` of them, produced lazily -/
+def pocketClassesPrefix (short : Bool) (street pocket n : Nat) : List (Nat × Nat) :=
+  (unfold (filterStep (HandIter.step short) (fun b => isCanon short pocket b) LIST_FUEL) n
+    (HandIter.init short (nObserved street) pocket)).map (fun b => (pocket, b))
+
+def pocketClassesSummary (short : Bool) (street pocket n : Nat) : Nat × Nat :=
+  unfoldFold (filterStep (HandIter.step short) (fun b => isCanon short pocket b) LIST_FUEL)
+    (fun acc b => ckObs acc (pocket, b)) n (HandIter.init short (nObserved street) pocket) (0, 0)
+
+theorem pocketClassesSummary_eq (short : Bool) (street pocket n : Nat) :
+    pocketClassesSummary short street pocket n = (pocketClassesPrefix short street pocket n).foldl ckObs (0, 0) := by
+  unfold pocketClassesSummary pocketClassesPrefix
+  rw [unfoldFold_eq, List.foldl_map]
+
 end RP.Hands
